@@ -13,8 +13,9 @@ RULE = ("all 48 orientation codes x stacks of uint8/uint16 grey and RGB PNG/TIFF
         "extra channels), extents 1..9 per axis with slice counts smaller than / equal to / a multiple of / one "
         "more than / not divisible by the chunk depth, non-cubic chunk sizes, flat/deep x gzip layouts; the "
         "real convert_slices_in_directory is run, every chunk read back through a fresh accessor and every "
-        "voxel compared with the pixel the orientation code designates; the voxel map is also compared with "
-        "the Lean model. Trivial = code RAS with a single slice group.")
+        "voxel compared with the pixel the orientation code designates; for identity-valued uint16 stacks every "
+        "recorded write_chunk call (box and the input pixel stored at each position) is compared with the Lean "
+        "chunk loop (stackChunks); the voxel map is also compared with the Lean model. Trivial = code RAS with a single slice group.")
 ASSUMPTIONS = [
     "scikit-image decodes the PNG/TIFF files written by the harness losslessly",
     "slice files are ordered by sorted(iterdir()) (zero-padded names)",
@@ -45,6 +46,7 @@ def run(ctx):
     todo = [(c, k) for c in codes for k in range(reps)]
     rng.shuffle(todo)
     reqs, meta = [], []
+    creqs, cmeta = [], []
     for code, _k in todo:
         tmp = tempfile.mkdtemp(prefix="ngv_c15_")
         try:
@@ -69,6 +71,10 @@ def run(ctx):
                 shape = (n_in[2], n_in[1], n_in[0]) + ((3,) if rgb else ())
                 top = 255 if dt == "uint8" else 65535
                 st = nr.integers(0, top + 1, size=shape).astype(dt)
+                if dt == "uint16" and not rgb:
+                    # identity stack: the value names the pixel (slice, row, column) and the channel, so that the
+                    # recorded write_chunk calls can be compared position by position with the Lean chunk loop
+                    st = (np.arange(n_in[2] * n_in[1] * n_in[0]).reshape(shape) + 1000 * d).astype(dt)
                 stacks.append(st)
                 ddir = os.path.join(tmp, f"slices{d}")
                 os.makedirs(ddir)
@@ -89,12 +95,33 @@ def run(ctx):
             desc = {"orientation": code, "input_size_col_row_slice": n_in, "input_chunk": cs_in, "dtype": dt,
                     "rgb": rgb, "directories": ndirs, "output_dtype": out_dt, "options": opts}
             import pathlib
+            recorded = []
+            orig_write = precomputed_io.PrecomputedIO.write_chunk
+
+            def spy(self, chunk, key, coords, _rec=recorded, _orig=orig_write):
+                _rec.append((tuple(int(v) for v in coords), np.array(chunk)))
+                return _orig(self, chunk, key, coords)
+            precomputed_io.PrecomputedIO.write_chunk = spy
             try:
                 slices_to_precomputed.convert_slices_in_directory([pathlib.Path(d) for d in dirs], dest,
                                                                   input_orientation=code, options=opts)
             except Exception as exc:  # noqa
                 ctx.oracle_fail(f"slice conversion raised {type(exc).__name__}: {exc}", desc)
                 continue
+            finally:
+                precomputed_io.PrecomputedIO.write_chunk = orig_write
+            if dt == "uint16" and not rgb:
+                calls = {}
+                for co, arr in recorded:
+                    px = []
+                    ok_channels = all(np.array_equal(arr[ch].astype(np.int64) - 1000 * ch, arr[0].astype(np.int64))
+                                      for ch in range(arr.shape[0]))
+                    for v in arr[0].astype(np.int64).ravel():
+                        v = int(v)
+                        px.append("%d.%d.%d" % (v % n_in[0], (v // n_in[0]) % n_in[1], v // (n_in[0] * n_in[1])))
+                    calls["%d-%d.%d-%d.%d-%d" % co] = ",".join(px) + ("" if ok_channels else "!channels")
+                creqs.append(f"slices-chunks {code} {core.ilist(size)} {core.ilist(chunk)}")
+                cmeta.append((desc, calls, len(recorded)))
             ctx.case(json.dumps(desc, sort_keys=True), nontrivial=code != "RAS" or n_in[2] > cs_in[2],
                      sample=desc if rng.random() < 0.05 else None)
             ctx.hist("reversed_slice_axis", code[2] in "LPI")
@@ -150,6 +177,19 @@ def run(ctx):
                         want.append(".".join(map(str, out)))
             if rep != ",".join(want):
                 ctx.corr_mismatch("slices-map", desc, ",".join(want)[:200], rep[:200])
+
+
+    if ctx.driver_ok and creqs:
+        for rep, (desc, calls, ncalls) in zip(core.driver_batch(creqs), cmeta):
+            model = {}
+            for part in rep.split(";"):
+                box, _, px = part.partition(":")
+                model[box] = px
+            ctx.bump("write_chunk_calls_compared", ncalls)
+            if model != calls or ncalls != len(model):
+                diff = sorted(set(model) ^ set(calls)) or [b for b in model if model[b] != calls.get(b)]
+                ctx.corr_mismatch("slices-chunks", dict(desc, first_difference=diff[:2]),
+                                  str({b: calls.get(b) for b in diff[:1]})[:300], str({b: model.get(b) for b in diff[:1]})[:300])
 
 
 def replay(ctx, data):
